@@ -836,7 +836,7 @@ theorem not_committed_of_pending {m : Mgr} {cur : Nat → Option Nat} {v : Ver} 
   obtain ⟨_, k, slot, hk, ho⟩ := h
   exact h2 k slot hk ho
 
-theorem tabRel_init {π : Type} : TabRel (π := π) TxMgr.init (fun _ => none) [] [] (fun _ => none) := by
+theorem tabRel_empty {π : Type} (m : Mgr) : TabRel (π := π) m (fun _ => none) [] [] (fun _ => none) := by
   refine ⟨by simp [NodupKeys, keys], by simp, by simp [NodupKeys, keys], by simp, ?_⟩
   intro k slot t sn wr h; simp at h
 
